@@ -1,9 +1,9 @@
 CONSTANTS
   MaxStack = 4
-  Budget = 4
+  Budget = 3
   Enabled = {"Name", "UnaryOp", "BinOp", "Await", "Attribute", "Call", "NamedExpr", "Lambda", "IfExp", "Tuple", "Starred", "Compare", "BoolOp", "Yield", "Expression"}
   NameSet = {"a", "b"}
-  ExtraParens = FALSE
+  ExtraParens = TRUE
   Emit = TRUE
 SPECIFICATION Spec
 INVARIANTS EmitOK
